@@ -231,6 +231,7 @@ def build(cfg):
         arrays = arrays.aset("electric_conductivity", jnp.asarray(ls * (2.0 / 3.0) / (c * eta0 * ie_now)))
     if cfg.get("fsigm") is not None:
         arrays = arrays.aset("magnetic_conductivity", arr(cfg["fsigm"], "sigm", eta0))
+    arrays = isotropic_on_source_planes(cfg, arrays)
     return obj, arrays, config
 
 
@@ -315,6 +316,79 @@ def dissipation(cfg, arrays, config, E0, E1):
     return np.sum(wE * (1.0 / ie) * s * np.abs(E1 + E0) ** 2, axis=ax)
 
 
+def plane_source_planes(cfg):
+    """(axis, index) of every plane-type (TFSF) source of the configuration"""
+    return [(s.get("axis", 2), s["at"]) for s in cfg.get("sources", []) if s.get("kind", "dipole") in ("plane", "gauss")]
+
+
+def isotropic_on_source_planes(cfg, arrays):
+    """The library refuses plane / Gaussian sources inside anisotropic material (core/grid.py calculate_time_offset_yee) and
+    the properties do not cover that case: wherever the harness REPLACES material arrays, the cells of every plane-source
+    plane get an isotropic permittivity / permeability (component 0 on the diagonal, no off-diagonal entries)."""
+    import jax
+    import jax.numpy as jnp
+
+    planes = plane_source_planes(cfg)
+    if not planes:
+        return arrays
+    for name in ("inv_permittivities", "inv_permeabilities"):
+        a = getattr(arrays, name)
+        if not (isinstance(a, jax.Array) and a.ndim == 4 and a.shape[0] in (3, 9)):
+            continue
+        b = np.array(a)
+        for ax, at in planes:
+            sl = [slice(None)] * 3
+            sl[ax] = slice(at, at + 1)
+            sl = tuple(sl)
+            ref = b[(0, *sl)].copy()
+            for comp in range(b.shape[0]):
+                diag = comp in ((0, 1, 2) if b.shape[0] == 3 else (0, 4, 8))
+                b[(comp, *sl)] = ref if diag else 0.0
+        arrays = arrays.aset(name, jnp.asarray(b))
+    return arrays
+
+
+class Refused(Exception):
+    pass
+
+
+def is_refusal(e):
+    """the library declined the scene (documented as unsupported) -- not an observation of the property"""
+    seen, cur = set(), e
+    while cur is not None and id(cur) not in seen:
+        seen.add(id(cur))
+        txt = f"{type(cur).__name__}: {cur}"
+        if isinstance(cur, (NotImplementedError, Refused)) or "NotImplementedError" in txt or "not supported" in txt or "are not supported yet" in txt:
+            return True
+        cur = cur.__cause__ or cur.__context__
+    return False
+
+
+def safe_observe(fn, case, kind, tol):
+    """observe(case); a scene the library refuses becomes a 'skipped' record (one soft monitor => spec drift, never a
+    machinery error and never a verdict on the property: nothing was observed)"""
+    import jax
+
+    e = None
+    for attempt in (1, 2):  # a genuinely refused scene fails both times; the retry only guards against an error of another
+        try:                # thread's scene surfacing here (debug-callback errors are raised at the next synchronisation)
+            rec = fn(case)
+            jax.effects_barrier()  # the refusal is raised from a debug callback: flush it inside this observation
+            return rec
+        except Exception as ex:  # noqa: BLE001
+            if not is_refusal(ex):
+                raise
+            e = ex
+    if True:
+        try:
+            jax.effects_barrier()
+        except Exception:  # noqa: BLE001
+            pass
+        msg = str(e).strip().splitlines()[-1][:120] if str(e).strip() else type(e).__name__
+        return {"id": case["id"], "kind": kind, "tol": tol, "devtol": 1000, "exact": False, "runs": [], "skipped": True,
+                "mons": [{"name": f"skipped: the library refused this scene ({type(e).__name__}: {msg})", "d": 2_000_000_000, "two": True, "soft": True}]}
+
+
 def full_tensor(cfg, arrays, seed):
     """replace inv_eps / inv_mu by symmetric positive definite full 3x3 tensors (9 components, lossless)"""
     import jax.numpy as jnp
@@ -331,7 +405,7 @@ def full_tensor(cfg, arrays, seed):
 
     arrays = arrays.aset("inv_permittivities", jnp.asarray(spd()))
     arrays = arrays.aset("inv_permeabilities", jnp.asarray(spd()))
-    return arrays
+    return isotropic_on_source_planes(cfg, arrays)
 
 
 def component_counts(arrays):
@@ -561,4 +635,5 @@ def pipeline(mod, ctx):
     # two-sided monitors: |d| ; one-sided ("never increases"): only the positive part counts
     ctx.extra_cov["largest_monitor_excess_1e-13"] = max([abs(m["d"]) if m["two"] else max(m["d"], 0) for r in recs for m in r.get("mons", [])] or [0])
     ctx.extra_cov["tolerance_1e-13"] = max([r.get("tol", 0) for r in recs] or [0])
+    ctx.extra_cov["skipped_refused_scenes"] = [r["id"] for r in recs if r.get("skipped")]
     ctx.validate(*mod.TRACE, recs, {c["id"]: c for c in inputs}, classify=getattr(mod, "classify", None), chunk=getattr(mod, "CHUNK", 400))
